@@ -373,7 +373,11 @@ func c10Buffer(cell c10Cell, rng *rand.Rand, flips int) []obj {
 	for k, in := range inputs {
 		var mu sync.Mutex
 		handed := 0
-		box := &msg.Box{Logger: scripted.Logger{}, MaxInFlightTopicsBySender: 100, GCSweep: time.Second, GCExpire: 4 * time.Second,
+		maxTopics := 100
+		if cell.St == "over-topic-limit" {
+			maxTopics = 3
+		}
+		box := &msg.Box{Logger: scripted.Logger{}, MaxInFlightTopicsBySender: maxTopics, GCSweep: time.Second, GCExpire: 4 * time.Second,
 			NewTicker:      func(time.Duration) *time.Ticker { return &time.Ticker{C: make(chan time.Time)} },
 			ForwardSend:    func(uint8, []byte, []byte, ...tss.UniversalID) {},
 			MessageHandler: handlerFunc(func(*tss.IncMessage) { mu.Lock(); handed++; mu.Unlock() })}
@@ -384,6 +388,11 @@ func c10Buffer(cell c10Cell, rng *rand.Rand, flips int) []obj {
 			case "over-limit":
 				for i := 0; i < 101; i++ {
 					box.HandleMessage(&tss.IncMessage{MsgType: uint8(tss.MsgTypeMPC), Topic: in.topic, Data: []byte("fill"), Source: 12})
+				}
+			case "over-topic-limit":
+				// the sender has more topics in flight than it is entitled to: its further topics are shed
+				for i := 0; i < 7; i++ {
+					box.HandleMessage(&tss.IncMessage{MsgType: uint8(tss.MsgTypeMPC), Topic: topicBytes(fmt.Sprintf("fill-%d", i)), Data: []byte("fill"), Source: 12})
 				}
 			}
 			box.HandleMessage(&tss.IncMessage{MsgType: in.msgType, Topic: in.topic, Data: in.data, Source: 12})
